@@ -456,6 +456,41 @@ pub fn run(ctx: &Ctx) -> Report {
     st = st.merge(st_e);
     base += total_e;
 
+    // ---- E2. (round 15) every value of every calendar field: every day of 2015 and 2016 (731 days, a leap year among
+    //      them), every hour, minute and second of one day, and 10 March of every year 1970 .. 2100 — the server clock
+    //      set to the same instant — x 2 renderings x carrier: a timestamp is well-formed whatever its digits are
+    let mut instants_e2: Vec<Instant> = Vec::new();
+    let day0 = Instant::from_civil(2015, 1, 1, 12, 36, 0, 0);
+    for k in 0..731 {
+        instants_e2.push(Instant::new(day0.secs + 86400 * k, 0));
+    }
+    for h in 0..24 {
+        instants_e2.push(Instant::from_civil(2015, 8, 30, h, 36, 0, 0));
+    }
+    for m in 0..60 {
+        instants_e2.push(Instant::from_civil(2015, 8, 30, 12, m, 0, 0));
+        instants_e2.push(Instant::from_civil(2015, 8, 30, 12, 36, m, 0));
+    }
+    for y in 1970..=2100 {
+        instants_e2.push(Instant::from_civil(y, 3, 10, 12, 36, 0, 0));
+    }
+    let total_e2 = instants_e2.len() as u64 * 4;
+    let base_e2 = base;
+    let inst_ref = &instants_e2;
+    let st_e2 = par_sweep(total_e2, |i, st| {
+        let carrier = if i % 2 == 0 { Carrier::Header } else { Carrier::Query };
+        let rendering = (i / 2) % 2;
+        let inst = inst_ref[(i / 4) as usize];
+        let mut plan = e2e::base_plan(carrier);
+        plan.instant = inst;
+        plan.date_text = render_instant(inst, rendering);
+        e2e::rekey(&mut plan, e2e::SECRET, "us-east-1", "service");
+        expect_accept(base_e2 + i, &plan, cfg_for(inst, false, false), st, "E2");
+        st.sample(i, total_e2, || json!({"sweep": "E2-calendar", "date": plan.date_text}));
+    });
+    st = st.merge(st_e2);
+    base += total_e2;
+
     // ---- F. rich requests: everything at once
     let total_f: u64 = 2 * 4 * 3 * 6 * 2 * 5;
     let base_f = base;
@@ -664,7 +699,7 @@ pub fn run(ctx: &Ctx) -> Report {
     Report {
         stats: st,
         rule: format!(
-            "requests signed by the independent reference signer from decoded data, then spelled on the wire: (A) every path of <= {} segments over {} segment values x trailing slash x {} spellings per segment x carrier x {{standard,S3}}; (B) every list of <= {} parameters over {} names x {} values, full product of {} spellings per element for <= 2 parameters and one element at a time above, x carrier; (C) 13 header sets (incl. names that are prefixes of one another, an HTTP-date or a stale ISO Date header next to X-Amz-Date, Expires / X-Amz-Expires / Content-Length bystanders) x 6 Authorization parameter orders x 4 separators x 2 leads x 3 name cases x X-Amz-Date/Date x extras signed or not; (D) 6 bodies x 5 content types x {{default, S3, fold, S3+fold}} x carrier x 4 tokens (incl. the empty one) x 6 methods x URL parameters; (E) 9 clock offsets in [-15min,+15min] incl. +-1ns from the bounds x 4 server instants x 6 date renderings x carrier; (F) 1440 rich combinations; (G) scale: 21-300 parameters over 1/3/16 names, 30 signed headers, one header with 30 values, 4 kB header and 9 kB query values with a 300 kB body, 60 path segments, a folded form of 120 parameters — each 8 times through fresh maps, both carriers; (H) 15 secrets of special shape (beginning with the literals 'AWS4' / 'aws4_request' / 'AWS4AWS4', one character, blanks, '/', '+', '=', a line end, non-ASCII, a byte-order mark, 100 characters) x carrier x token, keys handed out by a database that derives them through the crate's own key types; (I) 11 values containing literal, unescaped '=' (base64 padding, k=v filters, a lone '=') in the URL and in a folded form body, literal and escaped spelling, both carriers. Every second case is preceded, on the same thread, by one of 7 refused requests (bad escapes half-way through a query key / value / path / form body, wrong signature, expired) so that acceptance is also checked from non-initial states. Oracle: accepted (the provider bookkeeping is C03/C14's subject and is not judged here). states = distinct reference canonical requests; non-trivial = distinct (wire request, options, clock)",
+            "requests signed by the independent reference signer from decoded data, then spelled on the wire: (A) every path of <= {} segments over {} segment values x trailing slash x {} spellings per segment x carrier x {{standard,S3}}; (B) every list of <= {} parameters over {} names x {} values, full product of {} spellings per element for <= 2 parameters and one element at a time above, x carrier; (C) 13 header sets (incl. names that are prefixes of one another, an HTTP-date or a stale ISO Date header next to X-Amz-Date, Expires / X-Amz-Expires / Content-Length bystanders) x 6 Authorization parameter orders x 4 separators x 2 leads x 3 name cases x X-Amz-Date/Date x extras signed or not; (D) 6 bodies x 5 content types x {{default, S3, fold, S3+fold}} x carrier x 4 tokens (incl. the empty one) x 6 methods x URL parameters; (E) 9 clock offsets in [-15min,+15min] incl. +-1ns from the bounds x 4 server instants x 6 date renderings x carrier; (E2) every day of 2015 and 2016, every hour / minute / second of a day and 10 March of every year 1970 .. 2100 as the request date (server clock on the same instant) x 2 renderings x carrier; (F) 1440 rich combinations; (G) scale: 21-300 parameters over 1/3/16 names, 30 signed headers, one header with 30 values, 4 kB header and 9 kB query values with a 300 kB body, 60 path segments, a folded form of 120 parameters — each 8 times through fresh maps, both carriers; (H) 15 secrets of special shape (beginning with the literals 'AWS4' / 'aws4_request' / 'AWS4AWS4', one character, blanks, '/', '+', '=', a line end, non-ASCII, a byte-order mark, 100 characters) x carrier x token, keys handed out by a database that derives them through the crate's own key types; (I) 11 values containing literal, unescaped '=' (base64 padding, k=v filters, a lone '=') in the URL and in a folded form body, literal and escaped spelling, both carriers. Every second case is preceded, on the same thread, by one of 7 refused requests (bad escapes half-way through a query key / value / path / form body, wrong signature, expired) so that acceptance is also checked from non-initial states. Oracle: accepted (the provider bookkeeping is C03/C14's subject and is not judged here). states = distinct reference canonical requests; non-trivial = distinct (wire request, options, clock)",
             nseg, SEGS.len(), NSPELL, nq, QNAMES.len(), QVALUES.len(), NSPELL
         ),
         bounds: json!({"path_segments": nseg, "query_params": nq, "cases_enumerated": base}),
